@@ -789,6 +789,9 @@ def history_obligations(core, tier):
                 # nothing can be asked over a closed socket: replay through the in-process API (every call is connection 0)
                 ops = [[o[0]] + o[1:] for o in _ops_of(tr)] + [["unsub", 0, i] for i in range(subs)]
                 r["replay"] = {"scenario": "c06_inprocess", "args": {"ops": ops}}
+            if any(t.startswith("accept_err") for t in tr):
+                # an accept() that fails cannot be provoked over a well-behaved socket: the in-process scenario gives the subscribe call up before the handler accepts
+                r["replay"] = {"scenario": "c06_accept_fails", "args": {}}
             r["detail"] = f"history {tr}"
         out.append(r)
     return out
